@@ -116,7 +116,7 @@ pub fn profile(property: &str) -> GenParams {
         }
         "C08" => {
             params.limits = vec![1000, 4000, 1 << 40];
-            params.mix = [18, 45, 8, 12, 1, 2, 10, 2, 6, 3];
+            params.mix = [18, 45, 8, 12, 1, 2, 10, 2, 14, 3];
         }
         "C09" => {
             params = no_pressure(params);
